@@ -10,3 +10,54 @@ package ast
 //@   ensures len(result) == reference.End - reference.Start
 //@   pure
 //@   safety nil
+
+// Document accessors used by variables validation: assumed pure functions of the (immutable during
+// validation) document, abstracted by uninterpreted spec functions.
+//@ spec tNonNull(d *Document, ref int) bool
+//@ spec tList(d *Document, ref int) bool
+//@ spec tName(d *Document, ref int) int
+//@ spec ivHasDefault(d *Document, ref int) bool
+
+//@ func Document.TypeIsNonNull
+//@   ensures result <==> tNonNull(d, ref)
+//@   pure
+//@   trusted document accessor
+//@ func Document.TypeIsList
+//@   ensures result <==> tList(d, ref)
+//@   pure
+//@   trusted document accessor
+//@ func Document.ResolveTypeNameBytes
+//@   pure
+//@   trusted document accessor
+//@ func Document.TypeNameBytes
+//@   pure
+//@   trusted document accessor
+//@ func Document.InputValueDefinitionHasDefaultValue
+//@   ensures result <==> ivHasDefault(d, ref)
+//@   pure
+//@   trusted document accessor
+//@ func Document.NodeByName
+//@   pure
+//@   trusted document accessor
+//@ func Document.NodeInputFieldDefinitions
+//@   pure
+//@   trusted document accessor
+//@ func Document.InputValueDefinitionNameBytes
+//@   pure
+//@   trusted document accessor
+//@ func Document.InputValueDefinitionType
+//@   ensures 0 <= result && result < len(d.Types)
+//@   pure
+//@   trusted document accessor
+//@ func Document.InputObjectTypeDefinitionInputValueDefinitionByName
+//@   pure
+//@   trusted document accessor
+//@ func Document.EnumTypeDefinitionContainsEnumValueWithDirective
+//@   pure
+//@   trusted document accessor
+//@ func Document.PrintType
+//@   modifies global(ext)
+//@   trusted document accessor (prints a type reference to the writer)
+//@ func ByteSlice.String
+//@   pure
+//@   trusted zero-copy conversion
